@@ -58,8 +58,8 @@ def subwaker_index(t):
     return None
 
 
-def same_index(unit, cps, idx):
-    """Does index term `idx` designate the child polled at `cps`?"""
+def same_index(unit, cps, idx, block=None):
+    """Does index term `idx` (used at `block`) designate the child polled at `cps`?"""
     if idx is None:
         return False
     if cps.pos is not None:
@@ -67,7 +67,13 @@ def same_index(unit, cps, idx):
         k = scan.const_of(idx)
         if k is not None:
             return k == cps.pos
-        return cps.loop_idx is not None and idx == cps.loop_idx and cps.arm == cps.pos
+        if cps.loop_idx is None or idx != cps.loop_idx or cps.arm != cps.pos:
+            return False
+        if block is not None:
+            a = unit.arms(cps.loop_idx).arm_of(block)
+            if a is not None and a != cps.pos:
+                return False
+        return True
     return cps.idx is not None and idx == cps.idx
 
 
